@@ -34,6 +34,9 @@ type SpecEnv struct {
 	pkg    *types.Package // package whose package-level names are visible
 	inOld  bool
 	what   string
+	pre    *State // loop-entry state (for pre(...) in loop invariants)
+	qdepth int    // quantifier nesting depth (canonical bound-variable names)
+	inPre  bool
 }
 
 func (env *SpecEnv) child() *SpecEnv {
@@ -76,6 +79,9 @@ func (env *SpecEnv) state() *State {
 	if env.inOld {
 		return env.old
 	}
+	if env.inPre {
+		return env.pre
+	}
 	return env.st
 }
 
@@ -107,9 +113,9 @@ func (env *SpecEnv) eval(x *SExpr) Value {
 	case "quant":
 		n := env.child()
 		var bound []*Term
+		n.qdepth = env.qdepth + 1
 		for _, b := range x.Binders {
-			quantCounter++
-			bv := mkVar(fmt.Sprintf("%s!q%d", b.Name, quantCounter), specSort(b.Type))
+			bv := mkVar(fmt.Sprintf("%s!b%d", b.Name, env.qdepth), specSort(b.Type))
 			bound = append(bound, bv)
 			if bv.Sort.Kind == KInt {
 				n.vars[b.Name] = mathInt(bv)
@@ -124,12 +130,20 @@ func (env *SpecEnv) eval(x *SExpr) Value {
 			env.old.quiet++
 		}
 		body := n.evalBool(x.Args[0])
+		var pats [][]*Term
+		for _, alt := range x.Pats {
+			var ts []*Term
+			for _, pe := range alt {
+				ts = append(ts, specTerm(n.eval(pe)))
+			}
+			pats = append(pats, ts)
+		}
 		env.st.quiet--
 		if env.old != nil && env.old != env.st {
 			env.old.quiet--
 		}
 		if x.Op == "forall" {
-			return boolVal(mkForall(bound, body))
+			return boolVal(mkForallPats(bound, body, pats))
 		}
 		return boolVal(mkExists(bound, body))
 	case "field":
@@ -532,6 +546,13 @@ func (env *SpecEnv) call(x *SExpr) Value {
 		n := *env
 		n.inOld = true
 		return n.eval(x.Args[0])
+	case "pre":
+		if env.pre == nil {
+			env.fail(x, "pre() is only available in loop invariants")
+		}
+		n := *env
+		n.inPre = true
+		return n.eval(x.Args[0])
 	case "len", "cap":
 		v := env.eval(x.Args[0])
 		switch b := v.(type) {
@@ -568,23 +589,75 @@ func (env *SpecEnv) call(x *SExpr) Value {
 		return boolVal(mkEq(dynType(t), mkApp("type!"+x.Args[1].Str, SInt)))
 	case "bytesEq":
 		// bytesEq(slice, off, "literal"): slice[off+q] == lit[q] for all q
-		sv, ok := toSlice(env.eval(x.Args[0]))
-		if !ok {
-			env.fail(x, "bytesEq(slice, off, literal)")
-		}
+		bv := env.eval(x.Args[0])
 		off := env.evalInt(x.Args[1])
 		if x.Args[2].Kind != "str" {
 			env.fail(x, "bytesEq needs a literal")
 		}
 		var cs []*Term
+		if st2, isT := bv.(SpecTerm); isT && st2.T.Sort.Kind == KArray {
+			for q := 0; q < len(x.Args[2].Str); q++ {
+				cs = append(cs, mkEq(mkSelect(st2.T, mkAdd(off, mkInt64(int64(q)))), mkInt64(int64(x.Args[2].Str[q]))))
+			}
+			return boolVal(mkAnd(cs...))
+		}
+		sv, ok := toSlice(bv)
+		if !ok {
+			env.fail(x, "bytesEq(slice|array term, off, literal)")
+		}
 		for q := 0; q < len(x.Args[2].Str); q++ {
 			el := e.loadLoc(env.state(), sliceElemLoc(sv, mkAdd(off, mkInt64(int64(q)))))
 			cs = append(cs, mkEq(asTerm(el), mkInt64(int64(x.Args[2].Str[q]))))
 		}
 		return boolVal(mkAnd(cs...))
-	case "mapEq":
-		// mapEq(arrayterm, lit...) not needed
-	case "strlit":
+	case "raw":
+		// raw(s, x): element at absolute index x of the backing array of slice s
+		sv, ok := toSlice(env.eval(x.Args[0]))
+		if !ok {
+			env.fail(x, "raw(slice, index)")
+		}
+		et := sv.Typ.Underlying().(*types.Slice).Elem()
+		return e.loadLoc(env.state(), &MemLoc{Fam: memFamily(et), Arr: sv.Arr, Idx: env.evalInt(x.Args[1]), Typ: et})
+	case "at":
+		// at(s, y): element at absolute index y of the backing array of s (any element type)
+		sv, ok := toSlice(env.eval(x.Args[0]))
+		if !ok {
+			env.fail(x, "at(slice, index)")
+		}
+		et := sv.Typ.Underlying().(*types.Slice).Elem()
+		return e.loadLoc(env.state(), &MemLoc{Fam: memFamily(et), Arr: sv.Arr, Idx: env.evalInt(x.Args[1]), Typ: et})
+	case "end":
+		sv, ok := toSlice(env.eval(x.Args[0]))
+		if !ok {
+			env.fail(x, "end(slice)")
+		}
+		return mathInt(mkAdd(sv.Off, sv.Len))
+	case "base":
+		sv, ok := toSlice(env.eval(x.Args[0]))
+		if !ok {
+			env.fail(x, "base(slice)")
+		}
+		return mathInt(sv.Off)
+	case "deref":
+		v := env.eval(x.Args[0])
+		loc, _ := e.pointeeLoc(env, x, v)
+		return e.loadLoc(env.state(), loc)
+	case "mapset":
+		m := specTerm(env.eval(x.Args[0]))
+		k := env.evalInt(x.Args[1])
+		v := specTerm(env.eval(x.Args[2]))
+		return SpecTerm{mkStore(m, k, v)}
+	case "apply", "applyPre":
+		fv := env.eval(x.Args[0])
+		clo, ok := fv.(ClosureVal)
+		if !ok {
+			env.fail(x, fmt.Sprintf("%s needs a function literal value, got %T", x.Name, fv))
+		}
+		var args []Value
+		for _, a := range x.Args[1:] {
+			args = append(args, env.eval(a))
+		}
+		return env.applyClosure(x, clo, args, x.Name == "applyPre")
 	}
 	// method-style helpers
 	if strings.HasPrefix(x.Name, ".") {
@@ -600,7 +673,7 @@ func (env *SpecEnv) call(x *SExpr) Value {
 		}
 		if sf.Body != nil {
 			n := &SpecEnv{e: e, st: env.st, old: env.old, vars: map[string]Value{}, pkg: env.pkg, inOld: env.inOld,
-				what: "spec " + sf.Name, oldVar: nil}
+				what: "spec " + sf.Name, oldVar: nil, qdepth: env.qdepth, pre: env.pre, inPre: env.inPre}
 			for i, p := range sf.Params {
 				n.vars[p.Name] = args[i]
 			}
@@ -663,4 +736,38 @@ func (e *Exec) substr(st *State, s, lo, hi *Term) *Term {
 		st.assume(mkImplies(mkAnd(mkLe(tZero, lo), mkLe(lo, hi), mkLe(hi, strLen(s))), mkEq(strLen(r), mkSub(hi, lo))))
 	}
 	return r
+}
+
+// applyClosure evaluates a contracted pure function literal through its contract: the clause
+// labelled @def must have the form `result == E`; apply(f, args) is E with the parameters bound.
+// applyPre(f, args) is the conjunction of its preconditions.
+func (env *SpecEnv) applyClosure(x *SExpr, clo ClosureVal, args []Value, pre bool) Value {
+	e := env.e
+	c, names := e.prog.closureContract(clo.Lit)
+	if c == nil {
+		env.fail(x, "function literal has no contract")
+	}
+	n := &SpecEnv{e: e, st: env.st, old: env.old, vars: map[string]Value{}, pkg: env.pkg, inOld: env.inOld, what: "apply " + c.Key, qdepth: env.qdepth}
+	if pk := e.prog.pkgs[c.Pkg]; pk != nil {
+		n.pkg = pk.Types
+	}
+	for i, nm := range names {
+		if i < len(args) {
+			n.vars[nm] = args[i]
+		}
+	}
+	if pre {
+		var cs []*Term
+		for _, r := range c.Requires {
+			cs = append(cs, n.evalBool(r.Expr))
+		}
+		return boolVal(mkAnd(cs...))
+	}
+	for _, en := range c.Ensures {
+		if en.Label == "def" && en.Expr.Kind == "binary" && en.Expr.Op == "==" && en.Expr.Args[0].Kind == "ident" && en.Expr.Args[0].Name == "result" {
+			return n.eval(en.Expr.Args[1])
+		}
+	}
+	env.fail(x, "contract of "+c.Key+" has no clause `ensures result == E @def`")
+	return nil
 }
